@@ -76,10 +76,10 @@ PARAM_KINDS = {
     "FieldSet": (D(UNK), "list (str * option num)"), "TagSet": (D(UNK), "list (str * option str)"),
     "Set[int]": (("set",), "list nat"), "Dict[int, int]": (D(INT), "pydict nat nat"),
     "List[Point]": (L(POINT), "list point"), "Iterable[Point]": (L(POINT), "list point"),
-    "Optional[str]": (("ostr",), "option str"),
+    "Optional[str]": (("ostr",), "option str"), "List[str]": (L(STR), "list str"),
 }
 # methods that only READ the object and return a value: (name, Coq result type, kind of the result)
-GETTERS = [("__len__", "nat", INT), ("valid", "bool", BOOL), ("get_measurements", "list str", ("set",)), ("get_timestamps", "list Z", L(TIME)),
+GETTERS = [("__len__", "nat", INT), ("valid", "bool", BOOL), ("get_measurements", "list str", ("sset",)), ("get_field_keys", "list str", ("sset",)), ("get_tag_keys", "list str", ("sset",)), ("get_timestamps", "list Z", L(TIME)),
            ("get_field_values", "list (option num)", L(UNK))]
 METHODS = ["__init__", "_reset", "invalidate", "_insert_time", "_insert_measurements", "_insert_tags", "_insert_fields", "insert", "build",
            "_remove_timestamps", "_remove_measurements", "_remove_tags", "_remove_fields", "remove",
@@ -104,9 +104,11 @@ class Env:
     def __init__(self, kinds, facts=frozenset(), alias=None, stale=frozenset(), iters=(), fresh=frozenset(), inited=None):
         self.kinds, self.facts, self.alias, self.stale, self.iters, self.fresh = dict(kinds), frozenset(facts), dict(alias or {}), frozenset(stale), tuple(iters), frozenset(fresh)
         self.inited = inited            # None, or the set of attributes assigned so far (__init__: nothing is read before it is written)
+        self.assumed = ()               # (test, truth) of every enclosing branch: what a small propositional check may use
 
     def copy(self, **kw):
         e = Env(self.kinds, self.facts, self.alias, self.stale, self.iters, self.fresh, self.inited)
+        e.assumed = self.assumed
         for k, v in kw.items():
             setattr(e, k, v)
         return e
@@ -165,7 +167,7 @@ class Compiler:
         if isinstance(e, ast.Name):
             t, k, _, _ = self.path(e, env)
             if k == ("ostr",):
-                if ("truthy", e.id) not in env.facts:
+                if ("truthy", e.id) not in env.facts and not self.entails_truthy(env, e.id):
                     raise Refuse(f"`{e.id}` (an optional string) is used as a string where it is not known to be one")
                 return f"(opt_str {t})", STR
             return t, k
@@ -199,6 +201,13 @@ class Compiler:
                 k, v = self.ex(e.keys[0], env), self.ex(e.values[0], env)
                 return f"[({k[0]}, {v[0]})]", D(v[1])
             raise Refuse(f"dict display `{U(e)}`")
+        if isinstance(e, ast.DictComp):
+            if len(e.generators) != 1 or e.generators[0].ifs or e.generators[0].is_async:
+                raise Refuse(f"dict comprehension `{U(e)}`")
+            g = e.generators[0]
+            it, bpat, env2 = self.iterable(g.iter, g.target, env)
+            k, v = self.ex(e.key, env2), self.ex(e.value, env2)
+            return f"(fold_left (fun acc {bpat} => d_set {k[0]} {v[0]} acc) {it} [])", D(v[1])          # later occurrences of a key overwrite in place
         if isinstance(e, ast.Tuple) and len(e.elts) == 2:
             a, b = self.ex(e.elts[0], env), self.ex(e.elts[1], env)
             return f"({a[0]}, {b[0]})", T(a[1], b[1])
@@ -239,10 +248,20 @@ class Compiler:
                 if a[1][0] in ("list", "set", "dict"):
                     return f"(length {a[0]})", INT
             if isinstance(f, ast.Name) and f.id in ("set", "list") and len(e.args) == 1 and not e.keywords:
+                if f.id == "set" and isinstance(e.args[0], ast.Dict) and not e.args[0].keys:
+                    return "[]", ("eset",)          # set({}): an empty set, of strings or of positions
                 a = self.ex(e.args[0], env)
-                if a[1][0] in ("list", "set"):
-                    return a[0], (("set",) if f.id == "set" else L(a[1][1] if a[1][0] == "list" else UNK))       # a set of positions is a list read through `mem`
+                if a[1][0] in ("list", "set", "sset"):
+                    if f.id == "list":
+                        return a[0], L(STR if a[1][0] == "sset" else INT if a[1][0] == "set" else a[1][1])
+                    el = a[1][1] if a[1][0] == "list" else None
+                    return a[0], (("sset",) if (a[1][0] == "sset" or el in (STR, UNK)) else ("set",))       # a set is a list read through membership
                 raise Refuse(f"call `{U(e)}`")
+            if isinstance(f, ast.Attribute) and f.attr == "intersection" and len(e.args) == 1 and not e.keywords:
+                a, b = self.ex(f.value, env), self.ex(e.args[0], env)
+                if a[1] == ("set",) and b[1] == ("set",):
+                    return f"(set_inter {a[0]} {b[0]})", ("set",)
+                raise Refuse(f"`{U(e)}`: intersection of something other than two sets of positions")
             if isinstance(f, ast.Name) and f.id == "sorted" and len(e.args) == 1 and [U(k) for k in e.keywords] == ["key=lambda x: x[1]"]:
                 a = self.ex(e.args[0], env)
                 if a[1][0] == "list" and a[1][1][0] == "tuple" and a[1][1][2] == INT and a[1][1][1] == TIME:
@@ -307,7 +326,7 @@ class Compiler:
         t, k = self.ex(e, env)
         if k == BOOL:
             return t
-        if k[0] in ("list", "dict"):
+        if k[0] in ("list", "dict", "set", "sset"):
             return f"(nonempty_list {t})"
         if k == INT:
             return f"(negb (Nat.eqb {t} 0))"
@@ -315,8 +334,46 @@ class Compiler:
 
     def assume(self, test, env, truth):
         """facts a test establishes in its true / false branch"""
+        env = env.copy(assumed=env.assumed + ((test, truth),))
+        if isinstance(test, ast.BoolOp) and ((isinstance(test.op, ast.And) and truth) or (isinstance(test.op, ast.Or) and not truth)):
+            for v in test.values:
+                env = self.assume(v, env, truth)
+            return env
+        return self._assume(test, env, truth)
+
+    def entails_truthy(self, env, name):
+        """do the conditions of the enclosing branches imply that the optional string `name` is truthy?  (atoms: the truthiness of names, anything
+        else opaque; all assignments tried)"""
+        atoms = []
+
+        def collect(t):
+            if isinstance(t, ast.BoolOp):
+                for v in t.values:
+                    collect(v)
+            elif isinstance(t, ast.UnaryOp) and isinstance(t.op, ast.Not):
+                collect(t.operand)
+            elif U(t) not in atoms:
+                atoms.append(U(t))
+
+        def ev(t, a):
+            if isinstance(t, ast.BoolOp):
+                vs = [ev(v, a) for v in t.values]
+                return all(vs) if isinstance(t.op, ast.And) else any(vs)
+            if isinstance(t, ast.UnaryOp) and isinstance(t.op, ast.Not):
+                return not ev(t.operand, a)
+            return a[U(t)]
+        for t, _ in env.assumed:
+            collect(t)
+        if name not in atoms or len(atoms) > 8:
+            return False
+        import itertools
+        models = [dict(zip(atoms, bits)) for bits in itertools.product([False, True], repeat=len(atoms))]
+        models = [a for a in models if all(ev(t, a) == truth for t, truth in env.assumed)]
+        return bool(models) and all(a[name] for a in models)
+
+    def _assume(self, test, env, truth):
         if isinstance(test, ast.UnaryOp) and isinstance(test.op, ast.Not):
-            return self.assume(test.operand, env, not truth)
+            return self._assume(test.operand, env, not truth) if not isinstance(test.operand, ast.BoolOp) else self.assume(test.operand, env.copy(assumed=env.assumed[:-1]), not truth)
         if isinstance(test, ast.Name) and env.kinds.get(test.id) == ("ostr",) and truth:
             return env.copy(facts=env.facts | {("truthy", test.id)})
         if isinstance(test, ast.Compare) and len(test.ops) == 1 and isinstance(test.ops[0], (ast.In, ast.NotIn)):
@@ -383,7 +440,16 @@ class Compiler:
                         env2.iters = env2.iters + ((src, ns[0]),)
                 return f"(map fst {dt})", pat, env2
             raise Refuse(f"iterable `{U(it)}` with target `{U(target)}`")
+        if isinstance(it, ast.Call) and isinstance(it.func, ast.Attribute) and it.func.attr == "values" and not it.args and not it.keywords and len(ns) == 1:
+            dt, dk = self.ex(it.func.value, env)
+            if dk[0] != "dict":
+                raise Refuse(f"`{U(it)}` on a non-dict")
+            env2.kinds[ns[0]] = dk[1]
+            return f"(map snd {dt})", pat, env2
         a = self.ex(it, env)
+        if a[1][0] == "dict" and len(ns) == 1:
+            env2.kinds[ns[0]] = UNK          # iterating a dict yields its keys
+            return f"(map fst {a[0]})", pat, env2
         if a[1][0] == "list" and len(ns) == 1:
             env2.kinds[ns[0]] = a[1][1]
             return a[0], pat, env2
@@ -486,7 +552,7 @@ class Compiler:
             if st.value is None or in_loop:
                 raise Refuse(f"`{s}` in a method that returns a value")
             t, k = self.ex(st.value, env)
-            if not (k == self.getter or (k[0] == self.getter[0] and k[0] in ("list", "set"))):
+            if not (k == self.getter or (k[0] == self.getter[0] and k[0] in ("list", "set")) or (self.getter == ("sset",) and k in (("eset",), ("sset",))) or (self.getter[0] == "dict" and k[0] == "dict")):
                 raise Refuse(f"`{s}`: the value is a {k[0]}, the method returns a {self.getter[0]}")
             return t
         if isinstance(st, ast.Return):
@@ -506,7 +572,7 @@ class Compiler:
                 raise Refuse(f"`{s}`")
             target = st.targets[0] if isinstance(st, ast.Assign) else st.target
             vt, vk = self.ex(st.value, env)
-            fresh = isinstance(st.value, (ast.List, ast.Dict, ast.ListComp))
+            fresh = isinstance(st.value, (ast.List, ast.Dict, ast.ListComp, ast.DictComp)) or (isinstance(st.value, ast.Call) and U(st.value) in ("set({})", "set()"))
             var, nv, env2 = self.assign_path(target, vt, vk, env, fresh)
             return f"let {var} := {nv} in\n  {go(env2)}"
         if isinstance(st, ast.AugAssign) and isinstance(st.op, (ast.Add, ast.Sub)):
@@ -546,6 +612,25 @@ class Compiler:
                     kinds = dict(env2.kinds)
                     kinds[var] = L(vk) if rk[1] == UNK else rk
                     env2 = env2.copy(kinds=kinds)
+                return f"let {var} := {nv} in\n  {go(env2)}"
+            if isinstance(f, ast.Attribute) and f.attr == "add" and len(c.args) == 1 and not c.keywords and isinstance(f.value, ast.Name) and f.value.id in env.fresh:
+                n = f.value.id
+                if env.kinds[n] not in (("sset",), ("eset",)):
+                    raise Refuse(f"`{s}`: add on something that is not a set of strings built here")
+                vt, vk = self.ex(c.args[0], env)
+                if vk not in (STR, UNK):
+                    raise Refuse(f"`{s}`: adding a non-string")
+                kinds = dict(env.kinds)
+                kinds[n] = ("sset",)
+                return f"let {n} := (set_add {vt} {n}) in\n  {go(env.copy(kinds=kinds))}"
+            if isinstance(f, ast.Attribute) and f.attr == "add" and len(c.args) == 1 and not c.keywords and isinstance(f.value, ast.Subscript) \
+                    and self.root(f.value) in env.fresh:
+                rt, rk, rw, rp = self.path(f.value, env)
+                if rk not in (("sset",), ("eset",), UNK):
+                    raise Refuse(f"`{s}`: add on something that is not a set of strings")
+                vt, vk = self.ex(c.args[0], env)
+                var, nv = rw(f"(set_add {vt} {rt_force(rt)})")
+                env2 = self.note_write(rp, env)
                 return f"let {var} := {nv} in\n  {go(env2)}"
             if isinstance(f, ast.Attribute) and f.attr == "extend" and len(c.args) == 1 and not c.keywords and isinstance(f.value, ast.Name) \
                     and f.value.id in env.fresh and isinstance(c.args[0], (ast.GeneratorExp, ast.ListComp)):
